@@ -393,8 +393,12 @@ def run_case(case, rec, mon):
     p.set_from_history(hist, 0)
     p.set_from_history(hist, hist.number_of_records - 1)
     got = state(p)
-    if not all(X.close(want[k], got[k], 1.0) for k in want) and not inconsistent(q):
-        rec.violation("history-restore-differs", mon.ctx, f"{want} vs {got}")
+    # the plain parameters come back (to the rounding of the log/exp transformation); the expression parameters are
+    # judged by the contract on the setter (== expression on the restored values), NOT against their earlier values:
+    # an ill-conditioned expression (sin of a large argument) amplifies the one-ulp round trip of a referenced value
+    plain = [k for k in want if p.get(k).expression is None]
+    if not all(want[k] == got[k] or abs(want[k] - got[k]) <= 1e-13 * max(abs(want[k]), 1e-300) for k in plain) and not inconsistent(q):
+        rec.violation("history-restore-differs", mon.ctx, f"plain parameters {({k: want[k] for k in plain})} vs {({k: got[k] for k in plain})}")
     return fwd or changed_ref, fwd
 
 
